@@ -8,10 +8,11 @@ import core
 import engines.numeric as en
 
 PROP = 'C07'
-LEAN_TARGETS = ['MM.Props.C07C18', 'MM.Driver.Wire', 'MM.Model.Numeric']
+LEAN_TARGETS = ['MM.Props.C07C18', 'MM.Driver.Wire', 'MM.Model.Numeric', 'MM.Props.MemoTie']
 THEOREMS = ['MM.Numeric.' + n for n in (
     'C07_fixed_columns', 'C07_fixed_order', 'C07_fixed_equivariant', 'C07_scenario', 'C07_scenario_signed_sum_fails', 'C07_fixed_order_bundle',
     'quantile_nonpos', 'quantile_nonneg')]
+THEOREMS = list(THEOREMS) + ['MM.Memo.tie_memoised']
 TRUSTED_BASE = [
     'Lean 4.33.0 kernel + Mathlib; axioms propext, Classical.choice, Quot.sound (audited per theorem)',
     'fixed-cost scenario: model iroasFixed (MM/Model/Numeric.lean), theorems at ℝ, Float correspondence to 1e-9; Student-t quantile/cdf external '
